@@ -234,7 +234,7 @@ func runC01(c *core.Ctx) {
 	// 3. soup / corpus / mutants x 8 random configurations (CJK sets over-weighted)
 	n3 := c.PerShard(c.N(120000, 1500000))
 	for i := 0; i < n3; i++ {
-		src := wl.Mix(r, corpus)
+		src := mixDoc(r, corpus)
 		if i%5 == 0 {
 			// bare continuation / lead bytes around line breaks and delimiter runs
 			src = wl.SoupFrom(r, []string{"\x80", "\xbf", "\xc3", "\xe3\x81", "\xf0\x9f", "\xff", "\n", "*", "_", "a", " ", "あ", "~", "\"", "'", "[", "]", "(", ")", "|", "-", "\\"}, 12)
